@@ -700,6 +700,12 @@ func c05ClosedLoop(w *core.WorkerCtx, k int) *core.CaseResult {
 		kinds := []string{"restart", "dropPost", "loseAck", "unready", "failStatus"}
 		sc.Events = append(sc.Events, e2.Event{AtCycle: r.Intn(sc.Perturbed), Kind: kinds[r.Intn(len(kinds))], Shard: r.Intn(3), Cycles: 1})
 	}
+	// another third: one pod cannot build the job's HTTP client for the whole run (its proxy rejects every
+	// scrape of that job without contacting the target): no move INTO that pod may ever complete
+	if k%3 == 1 {
+		sc.Events = append(sc.Events, e2.Event{AtCycle: 0, Kind: "noJobClient", Shard: r.Intn(2), Cycles: 1})
+		sc.NoConvergence = true
+	}
 	root := e2.ScratchRoot(w.Scratch, 100000+k)
 	defer os.RemoveAll(root)
 	out := e2.Run(sc, root, r.Int63())
@@ -720,9 +726,11 @@ func c05ClosedLoop(w *core.WorkerCtx, k int) *core.CaseResult {
 		res.Violate("C05/closed-loop/early-removal-by-reported-counts", "%s", v)
 		break
 	}
-	for _, v := range out.GapViol {
-		res.Violate("C05/closed-loop/scrape-gap", "%s", v)
-		break
+	if !sc.NoConvergence { // a pod without job client legitimately requests nothing
+		for _, v := range out.GapViol {
+			res.Violate("C05/closed-loop/scrape-gap", "%s", v)
+			break
+		}
 	}
 	if len(res.Viol) > 0 {
 		res.Witness = map[string]interface{}{"scenario": sc, "trace": out.Trace}
